@@ -187,7 +187,10 @@ func (g *group) Iterate(ctx context.Context, onFields OnFields, onRow OnRow) (in
 			if ctabs == nil {
 				ctabs = make(map[string]interface{})
 			}
-			ctab := g.Crosstab.Eval(key).(string)
+			ctab, ok := g.Crosstab.Eval(key).(string)
+			if !ok {
+				return false, fmt.Errorf("Crosstab expression %v did not yield a string", g.Crosstab)
+			}
 			ctabs[ctab] = nil
 			kvs = append(kvs, &keyedVals{key, vals})
 		} else {
